@@ -32,6 +32,7 @@ class GaussFamily:
         self.topo = topo
         self.s = float(e.get("s", 1.0)) * float(e.get("pscale", 1.0))
         self.L = float(e.get("scale", 1.0))  # geometric scale factor of the whole machine
+        self.zoff = float(e.get("zoff", 0.0))  # vertical offset of the whole machine (applied after scaling)
         dR, dZ = e.get("shift", [0.0, 0.0])
         eps = float(e.get("eps", 0.003))
         r0, z0, w = 1.5 + dR, 0.3, float(e.get("w", 0.3))
@@ -48,12 +49,14 @@ class GaussFamily:
             c = [(r0, dZ, 1.0, w), (r0, -0.6 - eps + dZ, a2, w), (r0, 0.6 + dZ, a2, w)]
         elif topo == "udn2":  # second X-point far away
             c = [(r0, dZ, 1.0, w), (r0, -0.62 + dZ, a2, w), (r0, 0.6 + dZ, a2, w)]
+        elif topo == "custom":
+            c = [tuple(x) for x in e["centres"]]
         else:
             raise ValueError(topo)
-        self.centres = [(self.L * Rk, self.L * Zk, a, self.L * wk) for Rk, Zk, a, wk in c]
+        self.centres = [(self.L * Rk, self.L * Zk + self.zoff, a, self.L * wk) for Rk, Zk, a, wk in c]
         self.mirror = bool(e.get("mirror", False))
         self.Rlim = tuple(self.L * x for x in e.get("Rlim", (1.0, 2.0)))
-        self.Zlim = tuple(self.L * x for x in e.get("Zlim", (-0.7, 0.7)))
+        self.Zlim = tuple(self.L * x + self.zoff for x in e.get("Zlim", (-0.7, 0.7)))
         self.nR = int(e.get("nR", 65))
         self.nZ = int(e.get("nZ", 65))
         self.fs = float(e.get("fs", 1.0))
@@ -236,8 +239,9 @@ def make_wall(w, mirror=False):
     if w.get("cw", False):
         pts = pts[::-1]
     sc = float(w.get("scale", 1.0))
-    if sc != 1.0:
-        pts = [(sc * r, sc * z) for r, z in pts]
+    zo = float(w.get("zoff", 0.0))
+    if sc != 1.0 or zo != 0.0:
+        pts = [(sc * r, sc * z + zo) for r, z in pts]
     if mirror:
         pts = [(r, -z) for r, z in pts]
     return pts
